@@ -151,6 +151,11 @@ def limit_family():
     for ln in (75, 76, 255):
         for push in (b"\x4c" + bytes([ln]) + bytes(ln), b"\x4d" + ln.to_bytes(2, "little") + b"\x01" * ln, b"\x4e" + ln.to_bytes(4, "little") + b"\x01" * ln):
             out.append((push + b"\x82", [], ()))            # SIZE of what was pushed
+    # a signature check with a malformed tail behind it (the implementation scans the whole script when it deletes the signature)
+    for head in (b"\xac", b"\xad\x51", b"\x00\x00\x51\xae", b"\xab\xac"):
+        for tail in (b"\x02\x01", b"\x4c", b"\x4d\x01", b"\x4e\x01\x00\x00", b"\x13\xaf\x74\x00\x87"):
+            out.append((head + tail, [b"\x05", b"\x06"], ()))
+            out.append((b"\x51\x51" + head + tail, [], ()))
     out.append((b"\x61" * 201 + b"\x00" * 9799, [], ()))       # 10,000 bytes
     out.append((b"\x00" * 999 + b"\x75" * 200 + b"\x00" * 8802, [], ()))   # 10,001 bytes
     dis = [0x7e, 0x7f, 0x80, 0x81, 0x83, 0x84, 0x85, 0x86, 0x8d, 0x8e, 0x95, 0x96, 0x97, 0x98, 0x99]
